@@ -481,6 +481,30 @@ def d4_d5(chk: Check) -> None:
     defs = [n for n in walk_local(un.node) if isinstance(n, ast.Assign)
             and src(n.targets[0]) == change]
     found = any(src(d.value) == "{}[{}]".format(par, pref) for d in defs)
+    # every definition yields an object that *is in* the container: the
+    # subscript, or the variable of a loop over the container.  (The key
+    # text from the path equals a set member but is not the member: it has
+    # no anchor and is not the object the aliases share.)
+    from sa.coords import loop_binding
+    foreign = []
+    for d in defs:
+        v = d.value
+        if isinstance(v, ast.Constant) and v.value is None:
+            continue
+        if src(v) == "{}[{}]".format(par, pref):
+            continue
+        if isinstance(v, ast.Name):
+            lb = loop_binding(v.id, d)
+            if lb is not None and src(lb[1]) == par:
+                continue
+        foreign.append(d)
+    if foreign:
+        chk.fail("C03-D5", un, foreign[0], src(foreign[0])[:60],
+                 "the node to replace is taken from `{}`, not out of the "
+                 "container: it is not the object that the document (and "
+                 "the aliases of an anchored member) hold, so the identity "
+                 "search replaces nothing but the set entry and the anchor "
+                 "is lost".format(src(foreign[0].value)))
     if ok and found:
         chk.ok("C03-D5", un, rc[0], src(rc[0])[:70],
                "whole document, coordinates' own parent/parentref, old node "
@@ -501,3 +525,152 @@ def run(chk: Check) -> None:
     from rules.c09 import padding_fresh
     padding_fresh(chk, "C03-D2b",
                   chk.prog.func("Processor._get_optional_nodes"))
+    d1m_own_entries(chk)
+    d3b_retry_forwards_value(chk)
+    d7_float_presentation(chk)
+    from rules.c10 import d5_no_live_mutation
+    d5_no_live_mutation(chk, "C03-D6", ("yamlpath/processor.py",
+                                         "yamlpath/common/nodes.py"))
+
+
+def d1m_own_entries(chk: Check) -> None:
+    """A routine that stores into a ruamel mapping while walking its
+    entries walks the mapping's *own* entries: the view that includes keys
+    inherited through `<<:` would turn an inherited key into an explicit
+    one (and write through to the hash that owns it)."""
+    prog = chk.prog
+    chk.rule("C03-D1m", "loops that store into a CommentedMap while "
+             "iterating it iterate non_merged_items() (own entries), in the "
+             "replacement routine and in its twin Anchors.replace_anchor",
+             floor=2)
+    for fi in (recurse_fn(prog), prog.func("Anchors.replace_anchor")):
+        data = fi.params()[0]
+        n_loops = 0
+        for br in walk_local(fi.node):
+            if not (isinstance(br, ast.If) and "CommentedMap" in src(br.test)
+                    and "isinstance" in src(br.test)):
+                continue
+            for loop in [x for s_ in br.body for x in ast.walk(s_)
+                         if isinstance(x, ast.For)]:
+                it = loop.iter
+                if not (isinstance(it, ast.Call) and
+                        isinstance(it.func, ast.Attribute) and
+                        src(it.func.value) == data):
+                    continue
+                stores = [x for x in walk_local(loop)
+                          if isinstance(x, ast.Subscript) and
+                          isinstance(x.ctx, ast.Store) and
+                          src(x.value) == data]
+                if not stores:
+                    continue
+                n_loops += 1
+                text = "{}: for {} in {}".format(fi.node.name,
+                                                 src(loop.target), src(it))
+                if it.func.attr == "non_merged_items":
+                    chk.ok("C03-D1m", fi, loop, text, "own entries only")
+                else:
+                    chk.fail("C03-D1m", fi, loop, text,
+                             "the loop stores into `{}` while iterating "
+                             "`{}()`, which includes entries inherited "
+                             "through merge keys: an inherited value would "
+                             "be written as an explicit key".format(
+                                 data, it.func.attr))
+        if n_loops == 0:
+            raise AnalysisError("no storing map loop found in " + fi.short)
+
+
+def d3b_retry_forwards_value(chk: Check) -> None:
+    """make_new_node(..., DEFAULT) detects the format from the value's
+    native type and calls itself with that format.  The retry must carry
+    the caller's value: the wrapped probe is only good for its *type*
+    (wrap_type builds booleans with bool(text), so its value for "false" is
+    True)."""
+    prog = chk.prog
+    chk.rule("C03-D3b", "the self-call of make_new_node forwards the "
+             "source node and the value it was given; only the format "
+             "changes", floor=1)
+    fi = prog.func("Nodes.make_new_node")
+    chk.analysed(fi)
+    p_src, p_val = fi.params()[0], fi.params()[1]
+    rebinding = [n for n in walk_local(fi.node)
+                 if isinstance(n, (ast.Assign, ast.AugAssign, ast.AnnAssign))
+                 and src(n.targets[0] if isinstance(n, ast.Assign)
+                         else n.target) in (p_src, p_val)]
+    calls = [c for c in walk_local(fi.node) if isinstance(c, ast.Call) and
+             src(c.func).endswith("make_new_node")]
+    if not calls:
+        raise AnalysisError("self-call of make_new_node not found")
+    for c in calls:
+        text = src(c)[:70]
+        a = [src(x) for x in c.args[:2]]
+        if a == [p_src, p_val] and not rebinding:
+            chk.ok("C03-D3b", fi, c, text, "({}, {}) forwarded".format(
+                p_src, p_val))
+        else:
+            chk.fail("C03-D3b", fi, c, text,
+                     "the retry is given ({}) instead of the caller's "
+                     "({}, {}): the value written is the probe's, not the "
+                     "one asked for".format(", ".join(a), p_src, p_val))
+
+
+FLOAT_SAMPLES = [100.0, 1.0, 0.0, -2.0, 1.5, -0.5, 0.25, 1000.0, 10.5]
+
+
+def _ruamel_float_text(value: float, m_sign: Optional[str], prec: int,
+                       width: int) -> str:
+    """What ruamel.yaml's RoundTripRepresenter.represent_scalar_float
+    prints for a ScalarFloat without exponent (trusted model, transcribed
+    from ruamel.yaml 0.17: the two no-exponent arms)."""
+    ms = m_sign or ""
+    if prec > 0 and prec == width - 1:
+        return "{}{:d}.".format(ms, abs(int(value)))
+    text = "{}{:0{}.{}f}".format(ms, abs(value), width - len(ms),
+                                 width - prec - 1)
+    if prec == 0 or (prec == 1 and ms != ""):
+        text = text.replace("0.", ".")
+    return text
+
+
+def d7_float_presentation(chk: Check) -> None:
+    """A float written by set_value is wrapped by make_float_node with the
+    presentation hints (dot position, width) ruamel prints it with.  Folded
+    over sample values: the printed text must read back as the value that
+    was set (a whole number given without a dot position is printed with
+    its last digit moved behind the dot: 100.0 -> 10.00)."""
+    from sa.peval import Const, Kind, PEval
+    prog = chk.prog
+    chk.rule("C03-D7", "the presentation hints make_float_node computes make "
+             "ruamel print a text that reads back as the same number "
+             "(folded over sample floats against a model of the "
+             "representer)", floor=9)
+    fi = prog.func("Nodes.make_float_node")
+    chk.analysed(fi)
+    pv, pa = fi.params()[0], fi.params()[1]
+    pe = PEval()
+    pe.watch_calls = {"ScalarFloat"}
+    for v in FLOAT_SAMPLES:
+        pe.specialise(fi.node.body, {pv: Const(v), pa: Kind("none")},
+                      pinned=[pv, pa])
+        text = "make_float_node({!r})".format(v)
+        if len(pe.calls) != 1:
+            raise AnalysisError(text + ": constructor call not decided")
+        _, _, kw = pe.calls[0]
+        vals = {k: kw.get(k) for k in ("m_sign", "prec", "width")}
+        if not all(isinstance(x, Const) for x in vals.values()):
+            raise AnalysisError(text + ": hints not decided by folding")
+        shown = _ruamel_float_text(v, vals["m_sign"].value,
+                                   vals["prec"].value, vals["width"].value)
+        try:
+            back = float(shown)
+        except ValueError:
+            back = None
+        if back == v:
+            chk.ok("C03-D7", fi, fi.node, text,
+                   "prec={} width={} prints {!r}".format(
+                       vals["prec"].value, vals["width"].value, shown))
+        else:
+            chk.fail("C03-D7", fi, fi.node, text,
+                     "prec={} width={} makes ruamel print {!r}: the "
+                     "document no longer holds the value that was set"
+                     .format(vals["prec"].value, vals["width"].value, shown))
+
